@@ -2,7 +2,7 @@
 import math
 from fractions import Fraction as F
 
-from . import common as C, nnm
+from . import common as C, nnm, genarith
 
 ANCHORS = nnm.ANCHORS
 EPSF = 2.0 ** -52
@@ -51,6 +51,7 @@ def gen_extreme(rng):
 
 
 def run(ctx, res):
+    genarith.regenerate(ctx.pid, "nnm", res)   # regenerated tie: lam_to_eta, eta_to_lam, optimal_comparison
     cases, cr = nnm.run_corr(ctx.pid, ctx.rng, ctx.n(600, 8000),
                              kinds=["alpha_fixed", "alpha_shrink", "alpha_optcomp", "bet_fixed", "bet_agrapa", "sprt"],
                              maxlen=ctx.n(12, 14))
